@@ -309,7 +309,7 @@ func drawSpec(rt *rapid.T, a *adapter, maxKeys int, serializableOnly bool) *spec
 
 func (s *spec) canProto() bool {
 	for _, e := range s.final() {
-		if !e.legacy() && (e.info.NoSerialization || e.info.Variant == keys.WithIDRequirement) {
+		if !e.legacy() && e.info.NoSerialization {
 			return false
 		}
 	}
